@@ -427,7 +427,9 @@ def instance_state_writes(cls):
                 just_before = t in blk and blk.index(t) > 0 and blk[blk.index(t) - 1] is stmt
                 if in_final or in_body or just_before:
                     balanced = True
-            top_reset = isinstance(n, ast.Assign) and stmt in m.body and all(not isinstance(x, (ast.If, ast.For, ast.While, ast.Try)) for x in m.body[:m.body.index(stmt)])
+            # a reset = the attribute itself is bound anew (`self.X = ...`) at the top of the method; a store INTO what the attribute holds (`self.X[k] = v`) is not
+            top_reset = isinstance(n, ast.Assign) and stmt in m.body and all(not isinstance(x, (ast.If, ast.For, ast.While, ast.Try)) for x in m.body[:m.body.index(stmt)]) \
+                and any(isinstance(t_, ast.Attribute) and isinstance(t_.value, ast.Name) and t_.value.id == 'self' and t_.attr == a for t_ in n.targets)
             # a memo entry: self.X[key] = <function of the key and of attributes only the constructor assigns>: the same for every call, whenever it is stored
             memo = False
             if isinstance(n, ast.Assign) and len(n.targets) == 1 and isinstance(n.targets[0], ast.Subscript) and attr_of(n.targets[0].value) == a \
@@ -472,6 +474,36 @@ def check_instance_state(ctx):
     ctx.need(bad == {'bad'}, f'self-test of the instance-state rule failed ({sorted(bad)})')
 
 
+def entry_prelude_resets(cls, entry):
+    """[(attribute, assignment statement)] of the resets `self.A = <fresh value>` that an entry point performs before it does anything else: the simple statements at
+    the top of its body (up to the first compound statement / return), where a statement `self.h()` without arguments counts as the body of h when h is a method
+    of the class that consists of such resets only (a reset helper)."""
+    methods = {m.name: m for m in cls.body if isinstance(m, ast.FunctionDef)}
+
+    def resets_of(stmts, depth):
+        out, complete = [], True
+        for st in stmts:
+            if isinstance(st, ast.Expr) and isinstance(st.value, ast.Constant):
+                continue        # docstring
+            if isinstance(st, ast.Assign):
+                for tg in st.targets:
+                    if isinstance(tg, ast.Attribute) and isinstance(tg.value, ast.Name) and tg.value.id == 'self' and not any(
+                            isinstance(x, ast.Attribute) and isinstance(x.value, ast.Name) and x.value.id == 'self' and x.attr == tg.attr for x in ast.walk(st.value)):
+                        out.append((tg.attr, st))
+                continue
+            if depth == 0 and isinstance(st, ast.Expr) and isinstance(st.value, ast.Call) and isinstance(st.value.func, ast.Attribute) \
+                    and isinstance(st.value.func.value, ast.Name) and st.value.func.value.id == 'self' and not st.value.args and not st.value.keywords \
+                    and st.value.func.attr in methods:
+                sub, whole = resets_of(methods[st.value.func.attr].body, 1)
+                if whole:
+                    out.extend(sub)
+                    continue
+            complete = False
+            break
+        return out, complete
+    return resets_of(entry.body, 0)[0]
+
+
 def check_planner_reuse(ctx, rule='C20.planner-reuse'):
     """A QueryPlanner object plans many statements (the prepared-statement path calls from_query once per statement): whatever a planning method stores in the
     planner while it plans one statement must be reset by the entry point before the next - otherwise a later plan reads results of an earlier one.  Every
@@ -482,15 +514,7 @@ def check_planner_reuse(ctx, rule='C20.planner-reuse'):
     ctx.need(cls is not None, 'QueryPlanner not found')
     entry = next((m for m in cls.body if isinstance(m, ast.FunctionDef) and m.name == 'from_query'), None)
     ctx.need(entry is not None, 'QueryPlanner.from_query not found')
-    resets = set()
-    for st in entry.body:
-        if isinstance(st, (ast.If, ast.For, ast.While, ast.Try, ast.With, ast.Return)):
-            break
-        if isinstance(st, ast.Assign):
-            for tg in st.targets:
-                if isinstance(tg, ast.Attribute) and isinstance(tg.value, ast.Name) and tg.value.id == 'self' and not any(
-                        isinstance(x, ast.Attribute) and isinstance(x.value, ast.Name) and x.value.id == 'self' and x.attr == tg.attr for x in ast.walk(st.value)):
-                    resets.add(tg.attr)
+    resets = {a for a, _st in entry_prelude_resets(cls, entry)}
     n = 0
     for m, node, a, what in instance_state_writes(cls):
         n += 1
